@@ -107,7 +107,7 @@ Definition so_kind (f : nat) (c : cfg) (txt : option str) (w1 : pw) (o1 : opt) (
       end
   | KPtr =>
       match cb_parse (o_cbs o1) with
-      | None => (w1, o1, None)
+      | None => (add_diags w1 (cfg_diag c "no value parser for option '%s'"), o1, None)
       | Some k =>
           let '(w2, fl) := run_parsecb w1 k o1 txt in
           if fl then (w2, o1, None)
